@@ -137,6 +137,23 @@ def o3(tier):
     return ob.done(cases=len(paths))
 
 
+def _shared(fn, oid, title):
+    r = fn()
+    r.oid = oid
+    r.title = title + ' -- ' + r.title[:200]
+    return r
+
+
+def o4(tier):
+    from props import C02
+    return _shared(lambda: C02.o2(tier), 'O4', 'shared with C02-O2: the author check succeeds BEFORE the message is written, and the stored fields are the decoded rumor\'s')
+
+
+def o5(tier):
+    from props import C10
+    return _shared(lambda: C10.o8(tier), 'O5', 'shared with C10-O8: on SQLite the stored created_at / kind are the ones that were hashed into the id (no clamping or truncation on write)')
+
+
 def run(tier, seed, only=None):
-    obs = [('O1', o1), ('O2', o2), ('O3', o3)]
+    obs = [('O1', o1), ('O2', o2), ('O3', o3), ('O4', o4), ('O5', o5)]
     return [f(tier) for k, f in obs if not only or k in only]
